@@ -406,7 +406,7 @@ void verif_run(verif::Args const& a, verif::Evidence& ev)
               "degenerate shapes weighted; program of <= 3 (4) view ops with sub-images biased to the far corner; optional nth_channel + 2 ops; all read paths: view(x,y), row/col iterators, 1-D iterator ++/[]/at, reverse, "
               "locator walk, cached locations; one algorithm of fill/copy out/copy in/equal/for_each/generate/transform(1,2)/std::copy). oracle: no ASan/UBSan/guard/assert event, values = identity tags via the model, row alignment. "
               "non-trivial: non-empty image reached through a transformation, a non-trivial history or a guard buffer; distinct = (cfg, history, shapes, alignments, program, tail, algorithm).";
-    int cases = th ? 300000 : 20000;
+    int cases = th ? 1000000 : 20000;
     verif::rc_search(ev, a, "access", cases, 60, [&] { return gen_case(th); }, run_case, nontrivial,
                      {"cfg", "rk", "hist", "w", "h", "w2", "h2", "ap", "ap2", "prog", "tail", "post", "algo"});
 }
